@@ -30,12 +30,16 @@ pub fn export_to_hlsl(
     Ok(ExportedSource {
         source,
         pipeline_description: generate_output.pipeline_description,
+        entry_point_names: generate_output.entry_point_names,
     })
 }
 
 pub struct ExportedSource {
     pub source: String,
     pub pipeline_description: rssl_ir::export::PipelineDescription,
+
+    /// Name of the generated entry point function for each stage of the selected pipeline
+    pub entry_point_names: Vec<String>,
 }
 
 /// Error result when exporting to HLSL fails
